@@ -363,6 +363,39 @@ fn hostile_name(r: &mut Rng, under: &Labels) -> Labels {
     n
 }
 
+/// Keep the record length-consistent but make an inner, length-prefixed value one or two bytes
+/// longer or shorter than its meaning allows (an SVCB `mandatory` list of odd length, a 5-byte
+/// ipv4hint, a 33-byte NSEC bitmap, an empty key blob …): what a parser that validates inner
+/// structure with indexing rather than with checked reads trips over.
+fn odd_inner_lengths(r: &mut Rng, rec: &mut Rec) {
+    let idx: Vec<usize> = (1..rec.fields.len())
+        .filter(|&i| match (&rec.fields[i - 1], &rec.fields[i]) {
+            (F::U16(n), F::Bytes(b)) => *n as usize == b.len(),
+            (F::U8(n), F::Bytes(b)) => *n as usize == b.len(),
+            _ => false,
+        })
+        .collect();
+    if idx.is_empty() {
+        return;
+    }
+    let i = idx[r.usize_below(idx.len())];
+    let F::Bytes(mut b) = rec.fields[i].clone() else { return };
+    match r.below(4) {
+        0 => b.push(r.next_u64() as u8),
+        1 => {
+            b.pop();
+        }
+        2 => b.clear(),
+        _ => b.extend_from_slice(&[0, 1, 0]),
+    }
+    let wide = matches!(rec.fields[i - 1], F::U16(_));
+    if !wide && b.len() > 255 {
+        b.truncate(255);
+    }
+    rec.fields[i - 1] = if wide { F::U16(b.len() as u16) } else { F::U8(b.len() as u8) };
+    rec.fields[i] = F::Bytes(b);
+}
+
 /// A second wire-valid encoding that says "the same thing" as `rec` and that an implementation
 /// may or may not regard as equal: an NSEC type bitmap padded with trailing zero octets, a TXT
 /// record with one more empty string. Whatever equality decides, hashing has to agree with it.
@@ -815,6 +848,9 @@ pub fn generate(seed: u64, focus: &str, profile: Profile) -> Scenario {
                         let pool = vec![o.clone(), svc.clone()];
                         let mut x = dnsgen::gen::record(&mut r, o, ty, &pool, &dnsgen::gen::Sizes::default());
                         x.ttl = ttl;
+                        if r.chance(1, 3) {
+                            odd_inner_lengths(&mut r, &mut x);
+                        }
                         recs.push(x);
                     }
                 }
